@@ -48,4 +48,12 @@ PROPS = {
         "level_note": "Trusted: Coq kernel; the hand-written byte-level model; std's binary_search contract (returns some index holding the tag iff present) is an oracle whose answer the check validates against the tag array; 64-bit usize.",
         "assumptions": ["slice::binary_search returns Ok(j) with tags[j] == wanted iff the tag is present", "usize is 64 bits"],
     },
+    "C11": {
+        "families": ["tlvw"],
+        "n": {"quick": {"tlvw": 5000}, "thorough": {"tlvw": 100000}},
+        "rule": "size-limit lattice around i32::MAX with a size-only value type (1-3 pairs, header + values exactly at / one below / one above the limit, single values at i32::MAX+1, 2^32, 2^63, 2^64-1, saturating totals), plus random pair lists (0-12 pairs, repeated and huge tags, empty values, &[u8] / Cow borrowed / Cow owned / &str / Cow<str>, nesting depth <= 3) through new / new_from_slice / new_from_sorted into a recording sink, an OwningIovec and an HCOBS Encoder (decoded back); distinct = distinct case line; non-trivial = accepted list with at least two pairs",
+        "level_text": "Theorems C11_accepts_iff / C11_sorted_rejects_iff / C11_encode_is_layout / C11_sort_stable / C11_view_round_trip: in the faithful model of MessageWrapper construction succeeds iff count, every value length and header+values are <= i32::MAX (new_from_sorted additionally iff no tag decreases); encode never trips its assertions, writes exactly the Roughtime layout of the stably tag-sorted pairs, rough_tlv_len bytes of it; and C12's MessageView model accepts those bytes and iterates exactly the sorted pairs. Tied to the code by limit lattices with a size-only value type and random nested pair lists through all three constructors into three sinks.",
+        "level_note": "Trusted: Coq kernel; the hand-written model; slice::sort_by_key is a stable sort (modelled by insertion sort; uniqueness of the stable sort is proved); 64-bit usize; more than i32::MAX pairs cannot be materialised in the harness (that branch is covered by the theorem only).",
+        "assumptions": ["slice::sort_by_key is a stable sort", "ToRoughTLV implementors honour rough_tlv_len = bytes written (proved for nested MessageWrapper values)", "usize is 64 bits"],
+    },
 }
